@@ -7,7 +7,7 @@ from hypothesis import strategies as st
 from .. import simcheck
 from ..ir import Spec
 from ..runner import Outcome, case_digest
-from ..strategies import Profile, materialise_agents, model_specs, raw_agents
+from ..strategies import Profile, expand_agents, materialise_agents, model_specs, raw_agents
 from .c01 import model_classes, prepare, sample_of
 
 ID = "C13"
@@ -21,7 +21,8 @@ RULE = (
     "without duplicates; _period equals the period level; every target column equals the NumPy evaluation of that "
     "model function at the row's states/choices/period/params (1e-9, booleans exact); row (t,i) belongs to agent i "
     "(period-0 rows equal the i-th supplied initial state, consecutive rows of i obey the law of motion). In half of the cases a TWIN model (same names and signatures, different table contents and parameter values) is simulated first in the same process, so that state leaking between models is exposed. "
-    "Non-trivial: >=2 agents with pairwise distinct initial states, T>=2 and >=1 additional target; distinct by "
+    "One case in 16 (12 in the thorough tier) is a HUGE panel: the agents are expanded deterministically so that T*N exceeds 2**15 (or 2**16) rows by a remainder of 1-3000*T rows; the structural predicate runs on the whole frame, the row-level oracles on the first/last agents, the agents next to multiples of 2**15 rows and a regular stride. "
+    "Non-trivial: >=2 agents with pairwise distinct initial states, T>=2 and >=1 additional target (huge panels: >=2 distinct selected agents and >=1 target); distinct by "
     "case digest."
 )
 ASSUMPTIONS = [
@@ -35,10 +36,21 @@ PROFILE = Profile(name="panel", min_periods=1, max_periods=4, p_filter=0.5, max_
                   force_sparse_and_dense_choice=0.15)
 
 
+PROFILE_HUGE = Profile(name="panel_huge", min_periods=1, max_periods=4, p_filter=0.5, max_points=600, p_aux=0.9,
+                       max_disc_states=2, max_cont_states=1, max_disc_choices=1, max_cont_choices=1)
+CHUNK = 2**15  # panels larger than this (with a remainder) are the "huge" class
+
+
 @st.composite
-def cases(draw):
-    spec = draw(model_specs(PROFILE))
+def cases(draw, tier="quick"):
+    huge = draw(st.integers(0, 15 if tier == "quick" else 11)) == 0
+    spec = draw(model_specs(PROFILE_HUGE if huge else PROFILE))
+    extra = {}
+    if huge:
+        # T*N exceeds 2**15 rows (or a multiple) by a remainder; agents are expanded in check()
+        extra["huge"] = {"chunks": draw(st.sampled_from([1, 1, 2])), "extra": draw(st.integers(1, 3000))}
     return {
+        **extra,
         "spec": spec.to_json(),
         "agents": draw(raw_agents(1, 8)),
         "seed": draw(st.integers(0, 2**31 - 1)),
@@ -51,7 +63,7 @@ def cases(draw):
 
 
 def strategy(tier):
-    return cases()
+    return cases(tier)
 
 
 def target_pool(spec):
@@ -117,8 +129,13 @@ def check(case):
         return Outcome(status="skip", reason=skip, digest=dg)
     if not all(np.isfinite(ref.to_lcm_layout(v, t)).all() for t, v in enumerate(ref.V)):
         return Outcome(status="skip", reason="nonfinite_reference", digest=dg)
-    init = materialise_agents(spec, ref, case["agents"])
-    N, T = len(case["agents"]), spec.n_periods
+    agents = case["agents"]
+    T = spec.n_periods
+    if case.get("huge"):
+        n_total = -(-CHUNK * case["huge"]["chunks"] // T) + case["huge"]["extra"]
+        agents = expand_agents(agents, n_total)
+    init = materialise_agents(spec, ref, agents)
+    N = len(agents)
     pool = target_pool(spec)
     if case["targets_none"]:
         targets = None
@@ -171,6 +188,24 @@ def check(case):
         if not np.array_equal(np.asarray(df["_period"]), exp_index.get_level_values(0).to_numpy()):
             msgs.append("_period column differs from the period index level")
     cnt = {"target_cells": 0}
+    df_full, init_full, N_full = df, init, N
+    if case.get("huge") and not msgs:
+        # row-level oracles run on a deterministic selection of agents: the first and the last
+        # ones, the ones whose rows lie next to a multiple of 2**15 rows, and a regular stride
+        sel = set(range(3)) | set(range(N - 6, N)) | set(range(0, N, max(1, N // 40)))
+        for t in range(T):
+            for kk in range(1, T * N // CHUNK + 1):
+                for dlt in (-2, -1, 0, 1):
+                    i = kk * CHUNK - t * N + dlt
+                    if 0 <= i < N:
+                        sel.add(i)
+        sel = sorted(sel)
+        df = df_full.loc[(slice(None), sel), :].copy()
+        df.index = pd.MultiIndex.from_product([range(T), range(len(sel))], names=["period", "initial_state_id"])
+        init = {s_: np.asarray(v)[sel] for s_, v in init_full.items()}
+        N = len(sel)
+        classes.append("huge_panel_over_32768_rows")
+        cnt["panel_rows"] = T * N_full
     if not msgs and targets:
         bucket = "panel:target_value"
         for t in range(T):
@@ -202,6 +237,8 @@ def check(case):
     out = Outcome(digest=dg, classes=classes, info=cnt)
     distinct_agents = len({tuple(float(init[s][i]) for s in spec.states) for i in range(N)})
     out.nontrivial = N >= 2 and distinct_agents == N and T >= 2 and bool(targets)
+    if case.get("huge"):
+        out.nontrivial = distinct_agents >= 2 and bool(targets)
     if msgs:
         out.status = "violation"
         out.reason = "; ".join(msgs[:3])
